@@ -415,6 +415,11 @@ func deepCopy(v value, memo map[interface{}]interface{}) value {
 		n := newHmap(v.kt)
 		memo[v] = n
 		for _, e := range v.entries {
+			if _, sym := e.k.(*symStr); sym {
+				n.entries = append(n.entries, hentry{e.k, deepCopy(e.v, memo)})
+				n.nsym++
+				continue
+			}
 			n.insert(deepCopy(e.k, memo), deepCopy(e.v, memo))
 		}
 		return n
@@ -502,6 +507,14 @@ func deepEqual(a, b value, seen map[[2]interface{}]bool) bool {
 		}
 		if len(av.entries) != len(bv.entries) {
 			return false
+		}
+		if av.nsym > 0 || bv.nsym > 0 { // symbolic keys: same entries in the same order
+			for i, e := range av.entries {
+				if !deepEqual(e.k, bv.entries[i].k, seen) || !deepEqual(e.v, bv.entries[i].v, seen) {
+					return false
+				}
+			}
+			return true
 		}
 		for _, e := range av.entries {
 			o, found := bv.lookup(e.k)
